@@ -166,7 +166,10 @@ class gre (packet_base):
         self.parsed = True
 
         if self.type == 0x0800:
-            self.next = ipv4.ipv4(raw=raw[o:])
+            try:
+                self.next = ipv4.ipv4(raw=raw[o:])
+            except RecursionError: # Tunnels nested too deeply
+                self.next = raw[o:]
         elif self.type == 0x6558:
             self.next = ethernet(raw=raw[o:])
         else:
